@@ -767,65 +767,83 @@ func c13SpamScope(p *chk.Prog, r *chk.Report) {
 // `closed` channel) or the socket reported io.EOF - not for any other failed read (a truncated frame that the parser
 // reports as io.ErrUnexpectedEOF, say): one such frame would silence the node for every address it announces.
 func c13KeepsServing(p *chk.Prog, r *chk.Report) {
-	x := r.Rule("KEEPS-SERVING", "B path", "arpResponder.processRequest and ndpResponder.processRequest answer dropReasonClosed (which ends the responder's run loop for good) only in the select case that receives from the responder's closed channel, or behind errors.Is(err, io.EOF) / err == io.EOF alone for the error of the read", 2)
+	x := r.Rule("KEEPS-SERVING", "B path", "arpResponder.processRequest and ndpResponder.processRequest answer dropReasonClosed (which ends the responder's run loop for good) only in the select case that receives from the responder's closed channel, or behind errors.Is(err, io.EOF) / err == io.EOF alone for the error of the read (also when the classification is made by a helper that is handed the channel and the error)", 2)
 	for _, typ := range []string{"arpResponder", "ndpResponder"} {
 		f := need(x, p, "internal/layer2", typ, "processRequest")
 		if f == nil {
 			continue
 		}
-		g := f.Graph()
-		var closedCases []*ast.CommClause
-		ast.Inspect(f.Body, func(n ast.Node) bool {
-			cc, ok := n.(*ast.CommClause)
-			if !ok || cc.Comm == nil {
-				return true
-			}
-			var rx ast.Expr
-			switch c := cc.Comm.(type) {
-			case *ast.ExprStmt:
-				rx = c.X
-			case *ast.AssignStmt:
-				if len(c.Rhs) == 1 {
-					rx = c.Rhs[0]
-				}
-			}
-			if u, isU := ast.Unparen(rx).(*ast.UnaryExpr); isU && u.Op == token.ARROW && f.MatchWith("RECV.closed", u.X, chk.H("RECV", isRecv(f))) != nil {
-				closedCases = append(closedCases, cc)
-			}
-			return true
-		})
-		eof := chk.GAnyOf(g.GPat(true, "errors.Is(ERR, io.EOF)"), g.GPat(true, "ERR == io.EOF"))
 		n := 0
 		ok, at := true, f.Pos()
-		for _, rt := range g.Returns() {
-			res := retResults(rt)
-			if len(res) != 1 {
-				continue
-			}
-			for _, form := range valueForms(g, f, res[0], rt, 4) {
-				if form.E == nil || !isObjNamed(f, "internal/layer2.dropReasonClosed")(form.E) {
-					continue
+		var judge func(f *chk.Fn, isClosed func(ast.Expr) bool, depth int)
+		judge = func(f *chk.Fn, isClosed func(ast.Expr) bool, depth int) {
+			g := f.Graph()
+			var closedCases []*ast.CommClause
+			ast.Inspect(f.Body, func(nd ast.Node) bool {
+				cc, isCC := nd.(*ast.CommClause)
+				if !isCC || cc.Comm == nil {
+					return true
 				}
-				n++
-				node := rt.Node
-				if form.At.B != nil {
-					node = form.At.Node
-				}
-				inClosed := false
-				for _, cc := range closedCases {
-					if node != nil && cc.Pos() <= node.Pos() && node.End() <= cc.End() {
-						inClosed = true
+				var rx ast.Expr
+				switch c := cc.Comm.(type) {
+				case *ast.ExprStmt:
+					rx = c.X
+				case *ast.AssignStmt:
+					if len(c.Rhs) == 1 {
+						rx = c.Rhs[0]
 					}
 				}
-				site := rt
-				if form.At.B != nil {
-					site = form.At
+				if u, isU := ast.Unparen(rx).(*ast.UnaryExpr); isU && u.Op == token.ARROW && (isClosed(u.X) || isClosed(f.Resolve(u.X))) {
+					closedCases = append(closedCases, cc)
 				}
-				if !inClosed && !g.Dominated(site, eof) {
-					ok, at = false, site.Pos()
+				return true
+			})
+			eof := chk.GAnyOf(g.GPat(true, "errors.Is(ERR, io.EOF)"), g.GPat(true, "ERR == io.EOF"))
+			for _, rt := range g.Returns() {
+				res := retResults(rt)
+				if len(res) != 1 {
+					continue
+				}
+				for _, form := range valueForms(g, f, res[0], rt, 4) {
+					if form.E == nil {
+						continue
+					}
+					// the classification handed to a helper of the package together with the channel: judged there
+					if call, isCall := ast.Unparen(form.E).(*ast.CallExpr); isCall && depth > 0 {
+						if fo, _ := f.Callee(call).(*types.Func); fo != nil {
+							if cf := p.FnOf(fo.Origin()); cf != nil && cf.Body != nil && cf.Decl != nil && cf.Decl.Recv == nil {
+								for i, arg := range call.Args {
+									if isClosed(arg) || isClosed(f.Resolve(arg)) {
+										r.Saw(cf)
+										judge(cf, isParamIdx(cf, i), depth-1)
+									}
+								}
+							}
+						}
+						continue
+					}
+					if !isObjNamed(f, "internal/layer2.dropReasonClosed")(form.E) {
+						continue
+					}
+					n++
+					node := rt.Node
+					site := rt
+					if form.At.B != nil {
+						node, site = form.At.Node, form.At
+					}
+					inClosed := false
+					for _, cc := range closedCases {
+						if node != nil && cc.Pos() <= node.Pos() && node.End() <= cc.End() {
+							inClosed = true
+						}
+					}
+					if !inClosed && !g.Dominated(site, eof) {
+						ok, at = false, site.Pos()
+					}
 				}
 			}
 		}
+		judge(f, func(e ast.Expr) bool { return e != nil && f.MatchWith("RECV.closed", e, chk.H("RECV", isRecv(f))) != nil }, 2)
 		x.Check(typ+".processRequest:closed-only-when-closed-or-eof", at, ok && n >= 1, "", "the responder can report dropReasonClosed - and its run loop end for good - for a failed read that is neither the responder being closed nor io.EOF (a malformed frame, say): the node then stops answering for every address it announces on that interface")
 	}
 }
